@@ -3,7 +3,7 @@
    proofs in NfaProofs.v (verdict function, gate) and NfaAcProofs.v (the antichain algorithm with
    its worklist and memo tables). *)
 From Coq Require Import List NArith Bool.
-From V Require Import Sem Prod Incl TrimDefs Lang NfaDefs NfaProofs NfaAcDefs NfaAcProofs SharedTable.
+From V Require Import Sem Prod Incl TrimDefs Lang NfaDefs NfaProofs NfaAcDefs NfaAcProofs SharedTable HkcDefs HkcProofs.
 
 (* the verdict function of the three selections *)
 Theorem C09_exact : forall v A B, wincl_model v A B = true <-> wlincl A B.
@@ -11,6 +11,20 @@ Proof. exact wincl_model_exact. Qed.
 (* copies of one NFA share their transitions; inclusion between them depends on the start states too *)
 Theorem C09_shared_table_starts_matter : edges nN = edges nM /\ fsub (nfinals nN) (nfinals nM) /\ ~ wlincl nN nM.
 Proof. exact wshared_starts_matter. Qed.
+
+(* (A) the congruence algorithm itself (bisimulation up to congruence on the union automaton: pairs of macro-states, skipped when implied by
+   the congruence closure of the processed and scheduled pairs, tested by rewriting to a normal form; successors scheduled depth-first or
+   breadth-first): whatever the fuel and the order, an answer is the truth; on arbitrary operands (made disjoint first) it refines the decider *)
+Theorem C09_congr_partial_correct : forall A B bfs fuel b, disjoint (nstates A) (nstates B) ->
+  hkc_incl A B bfs fuel = Some b -> (b = true <-> wlincl A B).
+Proof. exact hkc_incl_partial_correct. Qed.
+Theorem C09_congr_equiv_partial_correct : forall A bfs fuel X Y b, hkc_equiv A bfs fuel X Y = Some b -> (b = true <-> forall w, lset A X w <-> lset A Y w).
+Proof. exact hkc_equiv_partial_correct. Qed.
+Theorem C09_congr_refines : forall bfs fuel A B b, hkc_model bfs fuel A B = Some b -> b = wincl_dec A B.
+Proof. exact hkc_model_refines. Qed.
+(* the rewriting test is sound for membership in the congruence closure *)
+Theorem C09_congr_closure_sound : forall R X Y, in_congr R X Y = true -> cc (InR R) X Y.
+Proof. exact in_congr_sound. Qed.
 
 Print Assumptions C09_exact.
 Theorem C09_agree : forall v v' A B, wincl_model v A B = wincl_model v' A B.
@@ -66,3 +80,7 @@ Print Assumptions C09_memo_refuted.
 Theorem C09_congr_operands_refuted : exists A B, wincl_congr_old A B = false /\ wincl_dec A B = true.
 Proof. exact congr_operands_refuted. Qed.
 Print Assumptions C09_shared_table_starts_matter.
+Print Assumptions C09_congr_partial_correct.
+Print Assumptions C09_congr_equiv_partial_correct.
+Print Assumptions C09_congr_refines.
+Print Assumptions C09_congr_closure_sound.
